@@ -261,6 +261,8 @@ func init() {
 					tok = "used" + sign(c)
 				case "updatePodIsAssignedNoLock", "UpdatePodIsAssigned":
 					tok = "setAsg:" + lit(c)
+				case "refreshPodIfPresent":
+					tok = "refresh"
 				case "updateGroupDeltaRequestNoLock", "updateGroupDeltaUsedNoLock", "resetQuotaNoLock":
 					tok = "other:" + callName(c) // a handler must not touch the figures any other way
 				}
@@ -318,7 +320,7 @@ func init() {
 			return "none"
 		}
 		fmt.Fprintf(&e.out, "\n/-- QuotaInfo.lock held (first statement, deferred unlock) by the PodCache mutators / readers -/\n")
-		for _, fn := range []string{"addPodIfNotPresent", "removePodIfPresent", "UpdatePodIsAssigned", "IsPodExist", "CheckPodIsAssigned"} {
+		for _, fn := range []string{"addPodIfNotPresent", "removePodIfPresent", "UpdatePodIsAssigned", "refreshPodIfPresent", "IsPodExist", "CheckPodIsAssigned", "getCachedPod"} {
 			fmt.Fprintf(&e.out, "def cacheLock_%s : String := %s\n", fn, leanStr(cacheLock(fn)))
 		}
 	}
